@@ -8,6 +8,8 @@ import (
 	"os"
 	"sort"
 	"strings"
+	"sync"
+	"time"
 
 	"golang.org/x/tools/go/packages"
 	"golang.org/x/tools/go/ssa"
@@ -93,6 +95,7 @@ func Load(repo string, patterns []string, tests bool, overlay map[string][]byte)
 	os.Unsetenv("GOWORK")
 	env := append(os.Environ(),
 		"GOFLAGS=-mod=mod", "GOPROXY=off", "GOSUMDB=off", "GOTOOLCHAIN=local", "GOWORK=off")
+	t0 := time.Now()
 	flags, cleanup := cgoStubModfile(repo)
 	defer cleanup()
 	fset := token.NewFileSet()
@@ -134,7 +137,20 @@ func Load(repo string, patterns []string, tests bool, overlay map[string][]byte)
 		return nil, fmt.Errorf("type-check errors (undecided):\n  %s", strings.Join(fatal, "\n  "))
 	}
 	prog, _ := ssautil.AllPackages(roots, ssa.InstantiateGenerics)
-	prog.Build()
+	// Function bodies are only needed for the repository's own packages; dependencies keep their
+	// declarations (types, signatures) but are not lowered to SSA instructions.
+	t1 := time.Now()
+	var wg sync.WaitGroup
+	for _, p := range prog.AllPackages() {
+		if p.Pkg != nil && strings.HasPrefix(p.Pkg.Path(), strings.TrimSuffix(modPrefix, "/")) {
+			wg.Add(1)
+			go func(p *ssa.Package) { defer wg.Done(); p.Build() }(p)
+		}
+	}
+	wg.Wait()
+	if os.Getenv("ARVCHECK_TIMING") != "" {
+		fmt.Fprintf(os.Stderr, "timing: load+typecheck %.1fs, ssa build %.1fs\n", t1.Sub(t0).Seconds(), time.Since(t1).Seconds())
+	}
 	w.Prog = prog
 	w.funcs = map[string]*ssa.Function{}
 	for fn := range ssautil.AllFunctions(prog) {
